@@ -852,3 +852,53 @@ Lemma pool_survives_startup ann open0 acts :
   let s := startup ann open0 acts in
   pool_alive s = true /\ exists r w, pool_fds s = Some (r, w) /\ In r (open_fds s) /\ In w (open_fds s).
 Proof. intros H. apply startup_ok_intact; auto. Qed.
+
+(* ====================================================================== *)
+(* K. a process is only ever started on a token, and a token only ever     *)
+(*    reaches a request through the hand-over — never through waiting      *)
+(* ====================================================================== *)
+
+Lemma start_needs_token s r s' :
+  step s (Start r) = Some s' ->
+  mem r (held s) = true /\ pool s' = pool s /\ in_hand_off s' = in_hand_off s /\ holding s' = holding s.
+Proof.
+  destruct s as [p q h qu g sl he ru orp dr]; unfold in_hand_off, holding; simpl.
+  destruct (mem r he) eqn:E; [|discriminate]. intros H; inversion H; subst; simpl.
+  repeat split; auto. rewrite len_snoc. pose proof (len_del _ _ E). lia.
+Qed.
+
+Lemma mem_del_true x r l : mem x (del r l) = true -> mem x l = true.
+Proof. rewrite !mem_In. apply In_del. Qed.
+
+(* the only way into `held` is Receive r, which takes the token out of r's one-shot slot *)
+Lemma token_only_by_receive s e s' x :
+  step s e = Some s' -> mem x (held s') = true ->
+  mem x (held s) = true \/ (e = Receive x /\ mem x (slots s) = true).
+Proof.
+  destruct s as [p q h qu g sl he ru orp dr]; simpl. intros H M.
+  destruct e; simpl in H;
+    repeat match type of H with
+           | (if ?c then _ else _) = Some _ => let E := fresh "E" in destruct c eqn:E; try discriminate
+           | match ?l with [] => _ | _ :: _ => _ end = Some _ => destruct l; try discriminate
+           end; inversion H; subst; simpl in *; auto;
+    try (left; eapply mem_del_true; eassumption).
+  (* Receive r *)
+  rewrite mem_app, mem_single in M. apply orb_true_iff in M. destruct M as [M|M]; auto.
+  apply N.eqb_eq in M. subst. right; auto.
+Qed.
+
+(* ... and the only way into a slot is the helper's hand-over of a token taken from the pipe *)
+Lemma slot_only_by_deliver s e s' x :
+  step s e = Some s' -> mem x (slots s') = true ->
+  mem x (slots s) = true \/ (e = Deliver /\ hand s = true /\ exists q, queue s = x :: q).
+Proof.
+  destruct s as [p q h qu g sl he ru orp dr]; simpl. intros H M.
+  destruct e; simpl in H;
+    repeat match type of H with
+           | (if ?c then _ else _) = Some _ => let E := fresh "E" in destruct c eqn:E; try discriminate
+           | match ?l with [] => _ | _ :: _ => _ end = Some _ => destruct l; try discriminate
+           end; inversion H; subst; simpl in *; auto;
+    try (left; eapply mem_del_true; eassumption).
+  rewrite mem_app, mem_single in M. apply orb_true_iff in M. destruct M as [M|M]; auto.
+  apply N.eqb_eq in M. subst. right. repeat split; auto. eexists; reflexivity.
+Qed.
